@@ -108,7 +108,7 @@ pub fn run(ctx: &Ctx) -> i32 {
         salt: 0x0201_0000,
         nshards: 64,
         enumerated: &enumerated,
-        random_cases: ctx.tier.pick(8_000_000, 100_000_000),
+        random_cases: ctx.tier.pick(8_000_000, 400_000_000),
         build_random: &|e| b(e, Force::default()),
         classify: &|c, j, t: &Tag, s| classify(c, j, t, s),
         all_quirks: false,
